@@ -14,7 +14,8 @@ from ..core import Violation
 
 ID = 'C19'
 
-DECLS = [(0, 10, int), (-5, 5, int), (1, 2, int), (0, 1000, int), (3, 3, int), (0.1, 0.9, float), (-1.5, 2.5, float), (10, 20, float), (-7, -2, int), (0.01, 1.0, float)]
+DECLS = [(0, 10, int), (-5, 5, int), (1, 2, int), (0, 1000, int), (3, 3, int), (0.1, 0.9, float), (-1.5, 2.5, float), (10, 20, float), (-7, -2, int), (0.01, 1.0, float),
+         (0.1, 1.0, float), (0.0, 0.9, float), (0.001, 0.01, float), (-3.0, 0.1, float), (0.2, 0.9, float)]
 
 
 def charset():
@@ -66,7 +67,7 @@ def _decode_all(_):
                     bad('type', {'declared': 'int'}, case, 'int parameter decoded to %s %r' % (tname, v))
                 if tp is float and tname not in ('float', 'int'):
                     bad('type', {'declared': 'float'}, case, 'float parameter decoded to %s %r' % (tname, v))
-                if not (mn <= v <= mx) and not (tp is float and (core.close(v, mn, rel=1e-9) or core.close(v, mx, rel=1e-9))):
+                if not (mn <= v <= mx):          # no tolerance: the strategy must never see a value outside the range it declared
                     bad('out-of-range', {}, case, 'gene %r decodes to %r outside [%r, %r]' % (g, v, mn, mx))
                 if prev is not None and v < prev:
                     bad('not-monotone', {}, case, 'gene %r decodes to %r < %r of the previous letter' % (g, v, prev))
@@ -76,9 +77,9 @@ def _decode_all(_):
                     bad('not-linear', {'type': 'float'}, case, 'gene %r decodes to %r, linear map gives %r' % (g, v, lin))
                 if tp is int and abs(v - lin) > 0.5 + 1e-9:
                     bad('not-linear', {'type': 'int'}, case, 'gene %r decodes to %r, linear map gives %r' % (g, v, lin))
-                if gi == 0 and (v != mn if tp is int else not core.close(v, mn, rel=1e-9)):
+                if gi == 0 and v != mn:
                     bad('first-letter-not-min', {}, case, 'first letter decodes to %r, min is %r' % (v, mn))
-                if gi == len(cs) - 1 and (v != mx if tp is int else not core.close(v, mx, rel=1e-9)):
+                if gi == len(cs) - 1 and v != mx:
                     bad('last-letter-not-max', {}, case, 'last letter decodes to %r, max is %r' % (v, mx))
         # the neighbour in the middle (float -1..1): whatever stands left and right of it (a degenerate range included),
         # its value is the linear image of ITS gene
